@@ -32,10 +32,13 @@ const (
 
 // ThrottlingChecker limits the time interval between two requests.
 type ThrottlingChecker struct {
+	// lastPassedTime is accessed atomically: it stands first, where a 64-bit word is 64-bit aligned on every
+	// platform (behind the pointer it was not where pointers have 32 bits: the atomic access panicked, the
+	// slot chain recovered and every request passed unpaced).
+	lastPassedTime    int64
 	owner             *TrafficShapingController
 	maxQueueingTimeNs int64
 	statIntervalNs    int64
-	lastPassedTime    int64
 }
 
 func NewThrottlingChecker(owner *TrafficShapingController, timeoutMs uint32, statIntervalMs uint32) *ThrottlingChecker {
